@@ -469,7 +469,7 @@ SPEC = {
     # ring, whose zmMulBarr_deep()/zmSqrBarr_deep() (zm.c) omit the 2n words of `prod`, so zmCreate_deep() and with it
     # zzPowerMod_deep() are 2n words short on the current tree: value cases add those 2n words, the declared size is
     # exercised by unit_probe in a forked child
-    "zzPowerMod": ("v", "o:c:n i:a:n z:n i:b:m z:m i:mod:n s:L.zzPowerMod_deep(n,m)+(0 if mod%2 else 2*W*n)"),
+    "zzPowerMod": ("v", "o:c:n i:a:n z:n i:b:m z:m i:mod:n s:L.zzPowerMod_deep(n,m)+(mod%2==0)*2*W*n"),
     "zzPowerModW": ("w", "w:a w:b w:mod s:L.zzPowerModW_deep()"),
 }
 
